@@ -39,6 +39,8 @@ type c12Scn struct {
 	HaveDirect    bool     // a direct connection exists at the start
 	Addrs         []string // addresses known for the peer (scripts: every dial succeeds when completed)
 	Complete      []string // addresses whose dial completes successfully (others hang)
+	Fail          []string // addresses whose dial fails
+	Ticks         []time.Duration
 	Ops           []c12Op
 	DirectAppears bool // an inbound direct connection is admitted at some point
 	DirectCloses  bool // the (initial or appearing) direct connection is closed at some point
@@ -145,6 +147,10 @@ func c12Body(sc c12Scn) func(x *vs.Exec) {
 		for _, a := range sc.Complete {
 			addr := ma.StringCast(a)
 			s.GoPrio("net:"+a[len(a)-10:], 1, func() { env.TransportFor(addr).Complete(addr, fxOK) })
+		}
+		for _, a := range sc.Fail {
+			addr := ma.StringCast(a)
+			s.GoPrio("netfail:"+a[len(a)-10:], 1, func() { env.TransportFor(addr).Complete(addr, fxFail) })
 		}
 		if sc.DirectAppears {
 			s.GoPrio("direct-appears", 1, func() {
@@ -310,6 +316,7 @@ func c12Scenarios(thorough bool) []c12Scn {
 		{Name: "allow-limited and plain stream with limited conn, direct appears", HaveLimited: true, Ops: []c12Op{{Kind: "stream", AllowLimited: true}, plain}, DirectAppears: true},
 		{Name: "force-direct dial with limited conn and relay+tcp addresses", HaveLimited: true, Addrs: []string{relay, c12TCP1}, Complete: []string{relay, c12TCP1}, Ops: []c12Op{{Kind: "dial", ForceDirect: true}}},
 		{Name: "force-direct dial with limited conn and only a relay address", HaveLimited: true, Addrs: []string{relay}, Complete: []string{relay}, Ops: []c12Op{{Kind: "dial", ForceDirect: true}}},
+		{Name: "plain dial then force-direct dial join one worker: relay succeeds, the shared direct dial fails", Addrs: []string{relay, c12TCP1}, Complete: []string{relay}, Fail: []string{c12TCP1}, Ops: []c12Op{{Kind: "dial"}, {Kind: "dial", ForceDirect: true}}, Ticks: []time.Duration{501 * time.Millisecond}},
 		{Name: "no-dial stream without any connection", Addrs: []string{c12TCP1}, Complete: []string{c12TCP1}, Ops: []c12Op{{Kind: "stream", NoDial: true}}},
 		{Name: "plain stream, peer reachable only through relay", Addrs: []string{relay}, Complete: []string{relay}, Ops: []c12Op{plain}},
 	}
@@ -325,8 +332,13 @@ func c12Scenarios(thorough bool) []c12Scn {
 }
 
 func c12Scenario(sc c12Scn) *vs.Scenario {
+	if sc.Ticks == nil {
+		// timers (relay dial delay 500 ms, ranking delays) can only fire while environment threads are still
+		// pending if virtual time is allowed to pass as an explicit (deviation-costing) alternative
+		sc.Ticks = []time.Duration{501 * time.Millisecond}
+	}
 	return &vs.Scenario{Name: sc.Name, Body: c12Body(sc), LeakIsViolation: true,
-		Opt: vs.Options{Horizon: 70 * time.Second, IdleStep: 97 * time.Millisecond, MaxSteps: 20000}}
+		Opt: vs.Options{Horizon: 70 * time.Second, IdleStep: 97 * time.Millisecond, MaxSteps: 20000, Ticks: sc.Ticks}}
 }
 
 func TestVerifC12(t *testing.T) {
